@@ -18,6 +18,7 @@ for f in ("patch.diff", "demo.py", "notes.md"):
 notes = open(os.path.join(seed, "notes.md")).read() if os.path.exists(os.path.join(seed, "notes.md")) else ""
 keys = [v.strip().split(" :: ")[0].replace("key=", "") for v in r.get("violations", []) if v.strip().startswith("key=")]
 meta = {
+    "note": json.load(open(os.path.join(os.path.dirname(os.path.abspath(__file__)), "seednotes.json"))).get("%s-%s" % (pid, x), ""),
     "property": pid,
     "origin": "independent sub-agent given only the property text and a scratch worktree (nothing from /verif)",
     "needs_to_manifest": notes.strip()[:1200],
